@@ -1113,6 +1113,7 @@ class NestedPipeFunc(PipeFunc):
         self._bound: dict[str, Any] = {}
         self.resources_variable = None  # not supported in NestedPipeFunc
         self.internal_shape = None  # not supported in NestedPipeFunc
+        self.error_snapshot = None
         self.profiling_stats = None
         self.post_execution_hook = None
         self.mapspec = self._combine_mapspecs() if mapspec is None else _maybe_mapspec(mapspec)
